@@ -1,0 +1,26 @@
+//go:build verif
+
+package verifhook
+
+import "sync/atomic"
+
+// Handler is called at every schedule point.
+type Handler func(site Site, obj any)
+
+var handler atomic.Pointer[Handler]
+
+// SetHandler installs (or with nil removes) the schedule point handler.
+func SetHandler(h Handler) {
+	if h == nil {
+		handler.Store(nil)
+		return
+	}
+	handler.Store(&h)
+}
+
+// Point calls the installed handler, if any.
+func Point(site Site, obj any) {
+	if h := handler.Load(); h != nil {
+		(*h)(site, obj)
+	}
+}
